@@ -50,5 +50,10 @@ with cf.ThreadPoolExecutor(J) as ex:
         if res is not None:
             results[name] = res
 os.remove(BIN)
-if not want:
-    json.dump(results, open(os.path.join(root, "seeded", "RESULTS.json"), "w"), indent=1, sort_keys=True)
+rp = os.path.join(root, "seeded", "RESULTS.json")
+if want and os.path.exists(rp):
+    # a partial run updates the stored matrix
+    old = json.load(open(rp))
+    old.update(results)
+    results = old
+json.dump(results, open(rp, "w"), indent=1, sort_keys=True)
